@@ -175,7 +175,11 @@ class _ShapeList(list):
                 include += 'ann '
 
             if shape.meta.get('label', '') != '':
-                shape.meta['label'] = f"'{shape.meta['label']}'"
+                label = shape.meta['label']
+                # a label that contains a single quote is written in
+                # double quotes
+                quote = '"' if "'" in label and '"' not in label else "'"
+                shape.meta['label'] = f'{quote}{label}{quote}'
 
             keylist = ('include', 'comment', 'symbol', 'coord', 'text',
                        'range', 'corr', 'type')
